@@ -15,6 +15,7 @@ import (
 
 func init() {
 	verifRegister("VerifC01_H1_SingleFrame", VerifC01_H1_SingleFrame)
+	verifRegister("VerifC01_H6_SecondFrame", VerifC01_H6_SecondFrame)
 	verifRegister("VerifC01_H2_StreamStep", VerifC01_H2_StreamStep)
 	verifRegister("VerifC01_H3_Stream", VerifC01_H3_Stream)
 	verifRegister("VerifC02_H2_StreamStep", VerifC02_H2_StreamStep)
@@ -226,4 +227,32 @@ func VerifC02_H4_Schedules() {
 	verifAssert("concatenation-equals-input", verifBytesEq(cat, data))
 	verifAssert("output-closed-exactly-once", verifChanCloseCount(out) == 1)
 	verifAssert("goroutines-finished", verifLiveGoroutines() == 0)
+}
+
+// H6: GetMessage on one handler after it has handled other buffers ("in
+// every order").  A predecessor buffer — a valid frame with symbolic
+// contents or arbitrary bytes — goes through the same handler first; for the
+// subject, an arbitrary buffer of the same or another length, a typed result
+// without error must still be exactly one frame.  (State that a handler
+// keeps between calls — a cache of what was last verified, a reused buffer —
+// cannot make a damaged frame pass.)
+func VerifC01_H6_SecondFrame() {
+	np := verifParam("payload-before", 1, 3)
+	var before []byte
+	if verifParam("valid-before", 0, 1) == 1 {
+		before = vfFrame(verifBytes("p", np))
+	} else {
+		before = verifBytes("p", np+6)
+	}
+	n := verifParam("n", 7, 9)
+	buf := verifBytes("buf", n)
+	verifWitness("reached")
+	h := New(verifTimeOf(vfTuesdayNoon), slog.LevelInfo)
+	_, _ = h.GetMessage(before)
+	m, err := h.GetMessage(buf)
+	if m != nil && m.MessageType >= 0 && err == nil {
+		verifWitness("typed-message")
+		verifAssert("typed-implies-exact-frame-after-another-buffer", isExactFrame(m.RawData))
+		verifAssert("type-is-first-12-payload-bits-after-another-buffer", m.MessageType == first12PayloadBits(m.RawData))
+	}
 }
